@@ -633,8 +633,13 @@ func runC09(c lib.Case) []string {
 			// environment assumption: the job asks an operator to drop only checkpoints it no longer retains
 			still := false
 			var keptIDs []uint64
+			var newest uint64
+			for _, v := range ids {
+				newest = max(newest, v)
+			}
 			for _, cid := range x.ckptIDs {
-				kept := false
+				// RetainOnly keeps listed checkpoints and those newer than every listed one
+				kept := cid > newest
 				for _, v := range ids {
 					if v == cid {
 						kept = true
@@ -897,6 +902,10 @@ func (g *c09Gen) retain(i int) {
 		return
 	}
 	x.ckpts = kept
+	if len(keep) > 1 && g.r.Chance(1, 4) {
+		// the job's list may lag behind: the operator's newest checkpoint is still being completed
+		keep = keep[:len(keep)-1]
+	}
 	g.emit("retain %d %s", i, strings.Join(keep, ","))
 }
 
